@@ -139,6 +139,10 @@ def r1(ctx: Ctx, rid: str = "C07.R1") -> None:
             if aborts:
                 ctx.ob(rid, m, role, hn, True, "aborts the collection (GarbageCollectionAborted) - nothing is deleted", text="")
                 continue
+            if bool(ex["raise"]) and not swallow and all(r.raised == "reraise" for r in ex["raise"]):
+                ctx.ob(rid, m, role, hn, True, "re-raises the failure unchanged on every path (bookkeeping only): it propagates out "
+                       "of the collection exactly as without the handler", text="")
+                continue
             cs = handler_classes(h)
             key: Optional[Tuple[str, str]] = None
             if ops:
@@ -188,7 +192,7 @@ def r2(ctx: Ctx) -> None:
     ctx.ob("C07.R2", col, "collect itself deletes nothing", direct[0] if direct else None, not direct,
            "deletes happen only inside _gc_prefix / the marker sweep")
     gp = ctx.fn(GC + "._gc_prefix")
-    callers = sorted({c.qname for c, _n in ctx.eff.call_sites.get(gp.qname, [])})
+    callers = sorted({ctx.prog.anchor(o) for c, _n in ctx.eff.call_sites.get(gp.qname, []) for o in (owner_tops(ctx, c) or [c])})
     ctx.ob("C07.R2", gp, "_gc_prefix is only called from collect", None, callers == [col.qname],
            f"callers: {callers}", nontrivial=False)
     # marker sweep deletes only markers
